@@ -16,9 +16,21 @@ for e in kf:
         shutil.copytree(os.path.join(REPO, 'boltons'), os.path.join(tmp, 'boltons'), ignore=shutil.ignore_patterns('__pycache__'))
         diff = subprocess.run(['git', '-C', REPO, 'diff', e['commit'] + '^', e['commit'], '--', 'boltons'],
                               capture_output=True, text=True, check=True).stdout
-        p = subprocess.run(['patch', '-R', '-p1', '-s', '-d', tmp], input=diff, capture_output=True, text=True)
+        p = subprocess.run(['patch', '-R', '-p1', '-s', '-F3', '-d', tmp], input=diff, capture_output=True, text=True)
         if p.returncode != 0:
-            print('CANNOT-REVERT', e['property'], e['commit'], p.stdout[-200:]); bad += 1; continue
+            # the context of an older fix has changed since (a later fix touches the lines next to it): let git do a
+            # three-way revert in a scratch worktree instead
+            wt = tempfile.mkdtemp(prefix='vrevwt_')
+            os.rmdir(wt)
+            try:
+                subprocess.run(['git', '-C', REPO, 'worktree', 'add', '--detach', '-q', wt, 'HEAD'], check=True, capture_output=True)
+                g = subprocess.run(['git', '-C', wt, 'revert', '--no-commit', e['commit']], capture_output=True, text=True)
+                if g.returncode != 0:
+                    print('CANNOT-REVERT', e['property'], e['commit'], (g.stdout + g.stderr)[-200:]); bad += 1; continue
+                shutil.rmtree(os.path.join(tmp, 'boltons'))
+                shutil.copytree(os.path.join(wt, 'boltons'), os.path.join(tmp, 'boltons'), ignore=shutil.ignore_patterns('__pycache__'))
+            finally:
+                subprocess.run(['git', '-C', REPO, 'worktree', 'remove', '--force', wt], capture_output=True)
         env = dict(os.environ, VERIF_REPO=tmp)
         r1 = subprocess.run([os.path.join(V, 'check'), e['property'], '--replay', e['replay']], cwd=V, env=env, capture_output=True, text=True)
         r2 = subprocess.run([os.path.join(V, 'check'), e['property'], '--replay', e['replay']], cwd=V, capture_output=True, text=True)
